@@ -8,5 +8,7 @@ for d in ${@:-$(ls seeded)}; do
   (cd /repo && git checkout -- .)
   kind=$(grep -c "no-failing-input-found" /tmp/seed_$d.log)
   nv=$(grep -c "^VIOLATION" /tmp/seed_$d.log)
-  echo "$d check=$P rc=$rc violations=$nv without_input=$kind"
+  case $d in *n) want=0;; *) want=1;; esac
+  [ $rc -eq $want ] && verdict=as-expected || verdict=UNEXPECTED
+  echo "$d check=$P rc=$rc (want $want) violations=$nv without_input=$kind $verdict"
 done
